@@ -9,7 +9,14 @@ P="$D/patch.diff"; [ -f "$D/patch.rebased.diff" ] && P="$D/patch.rebased.diff"
 mkdir -p /tmp/mut/out
 if [ ! -d /tmp/mut/repo ]; then git -C /repo worktree add -q --detach /tmp/mut/repo HEAD || exit 3; fi
 git -C /tmp/mut/repo checkout -q -f --detach "$(git -C /repo rev-parse HEAD)" && git -C /tmp/mut/repo clean -q -fd -e target
-git -C /tmp/mut/repo apply "$P" 2>/tmp/mut/apply.err || { echo "$(basename $D) APPLY-FAILED: $(head -2 /tmp/mut/apply.err | tr '\n' ' ')"; exit 3; }
+if ! git -C /tmp/mut/repo apply "$P" 2>/tmp/mut/apply.err; then
+  # the change was written against the pinned commit; later fix:/hook commits moved its context: 3-way merge it
+  if git -C /tmp/mut/repo apply --3way "$P" 2>>/tmp/mut/apply.err && ! git -C /tmp/mut/repo diff --name-only --diff-filter=U | grep -q .; then
+    git -C /tmp/mut/repo diff HEAD > "$D/patch.rebased.diff"; git -C /tmp/mut/repo reset -q
+  else
+    echo "$(basename $D) APPLY-FAILED: $(head -2 /tmp/mut/apply.err | tr '\n' ' ')"; git -C /tmp/mut/repo reset -q --hard; exit 3
+  fi
+fi
 rm -rf /tmp/mut/engine && mkdir -p /tmp/mut/engine && cp -r /verif/engine/. /tmp/mut/engine/ && rm -rf /tmp/mut/engine/target
 sed -i 's|path = "/repo/fpdec-core"|path = "/tmp/mut/repo/fpdec-core"|; s|path = "/repo"|path = "/tmp/mut/repo"|' /tmp/mut/engine/fpmc/Cargo.toml
 ( cd /tmp/mut/engine && CARGO_NET_OFFLINE=true CARGO_TARGET_DIR=/tmp/mut/target RUSTFLAGS="--cfg fpdec_verif" cargo build --release --offline ) >/tmp/mut/build.log 2>&1 || { echo "$(basename $D) BUILD-FAILED"; tail -5 /tmp/mut/build.log; exit 2; }
